@@ -106,7 +106,9 @@ pub mod fallback {
     /// Returns the largest integer less than or equal to `x`.
     #[inline]
     pub fn floor(x: f32) -> f32 {
-        (x as i64).saturating_sub(x.is_sign_negative() as i64) as f32
+        // Truncation rounds negative non-integers up; only those are adjusted
+        let t = x as i64;
+        t.saturating_sub(((t as f32) > x) as i64) as f32
     }
     // Returns the least non-negative remainder of `x` (mod `m`).
     #[inline]
